@@ -51,7 +51,11 @@ class InitMethod(MethodDescriptor):
             )
             for parent in reversed(spec_cls.mro()[1:]):
                 parent_metadata = getattr(parent, "__spec_class__", None)
-                if parent_metadata:
+                # Plain (undecorated) classes in the hierarchy merely inherit the
+                # metadata (and constructor) of a spec-class, which is visited in
+                # its own right; calling it again through them would reset the
+                # attributes it has just initialised.
+                if parent_metadata and parent_metadata.owner is parent:
                     parent_kwargs = {}
                     for attr in parent_metadata.attrs:
                         instance_attr_spec = instance_metadata.attrs[attr]
